@@ -479,9 +479,25 @@ func weightRoutingGraphs() []histGraph {
 				{Op: "Add", Ins: []string{"W", "x"}, Outs: []string{"ad"}},
 				{Op: "Mul", Ins: []string{"x", "Wrow"}, Outs: []string{"mu"}},
 				{Op: "Less", Ins: []string{"W", "x"}, Outs: []string{"le"}},
+				{Op: "Equal", Ins: []string{"W", "x"}, Outs: []string{"eq"}},
+				{Op: "GreaterOrEqual", Ins: []string{"x", "W"}, Outs: []string{"geq"}},
+				{Op: "Greater", Ins: []string{"x", "Wrow"}, Outs: []string{"gt"}},
+				{Op: "LessOrEqual", Ins: []string{"Wrow", "x"}, Outs: []string{"leq"}},
+				{Op: "And", Ins: []string{"eq", "le"}, Outs: []string{"an"}},
+				{Op: "Or", Ins: []string{"eq", "gt"}, Outs: []string{"orr"}},
+				{Op: "Xor", Ins: []string{"geq", "leq"}, Outs: []string{"xo"}},
+				{Op: "Not", Ins: []string{"eq"}, Outs: []string{"no"}},
+				{Op: "Sub", Ins: []string{"W", "x"}, Outs: []string{"su"}},
+				{Op: "Div", Ins: []string{"x", "Wrow"}, Outs: []string{"dv"}},
+				{Op: "Sigmoid", Ins: []string{"W"}, Outs: []string{"sg"}},
+				{Op: "Tanh", Ins: []string{"W"}, Outs: []string{"th"}},
+				{Op: "Softmax", Attrs: []Attr{{Name: "axis", Type: "i", I: 0}}, Ins: []string{"W"}, Outs: []string{"sm"}},
+				{Op: "LogSoftmax", Ins: []string{"W"}, Outs: []string{"lsm"}},
+				{Op: "Scaler", Attrs: []Attr{{Name: "offset", Type: "floats", Fs: []float64{1, 2, 3}}, {Name: "scale", Type: "floats", Fs: []float64{2, 2, 2}}}, Ins: []string{"W"}, Outs: []string{"sc"}},
+				{Op: "ConstantOfShape", Ins: []string{"tgt"}, Outs: []string{"cos"}},
 				{Op: "Shape", Ins: []string{"W3"}, Outs: []string{"shp"}},
 				{Op: "Gemm", Attrs: []Attr{{Name: "transB", Type: "i", I: 1}}, Ins: []string{"x", "W", "Wrow"}, Outs: []string{"ge"}},
-			}, Outputs: []string{"t1", "t2", "t3", "m", "r", "f", "sq", "u", "sl", "ga", "ex", "cc", "ca", "rmx", "rmn", "am", "ab", "re", "pr", "ad", "mu", "le", "shp", "ge", "W"}}
+			}, Outputs: []string{"t1", "t2", "t3", "m", "r", "f", "sq", "u", "sl", "ga", "ex", "cc", "ca", "rmx", "rmn", "am", "ab", "re", "pr", "ad", "mu", "le", "shp", "ge", "W", "eq", "geq", "gt", "leq", "an", "orr", "xo", "no", "su", "dv", "sg", "th", "sm", "lsm", "sc", "cos"}}
 		out = append(out, histGraph{"weight-into-every-operator", gwe, []NamedT{{"x", smallT("f32", []int{3, 3}, 7)}}, []NamedT{{"x", smallT("f32", []int{3, 2}, 7)}}, nil})
 	}
 	out = append(out, histGraph{"reductions-passthrough", gw, []NamedT{{"x", smallT("f32", []int{2, 3}, 7)}}, []NamedT{{"x", smallT("f32", []int{3, 3}, 7)}}, nil})
